@@ -114,7 +114,8 @@ pub fn replay_one(b: &Value, rng: &mut StdRng) -> Option<String> {
                 return Some(format!("dropped row {}: z = {}, s = {} (bound at build {})", i, sol.z[i], sol.s[i], bound));
             }
         }
-        if sol.status != SolverStatus::Solved { return Some(format!("status {:?} on a strictly feasible planted problem", sol.status)); }
+        // (whether a planted problem ends Solved is C06's business; here the verdict only has to be the one of the
+        //  hand-reduced problem, whose internal data are identical)
         // the kept entries solve the problem with the dropped rows deleted by hand (built from the MODEL's keep map)
         let mut cones_red = vec![];
         let mut off = 0;
@@ -131,6 +132,14 @@ pub fn replay_one(b: &Value, rng: &mut StdRng) -> Option<String> {
         let p_red = Problem { P: p.P.clone(), q: p.q.clone(), A: Csc::from_dense(&a_red, kept.len(), n),
                               b: kept.iter().map(|&i| bb[i]).collect(), cones: cones_red,
                               settings: json!({"presolve_enable": false, "equilibrate_enable": false}), tag: "hand-reduced".into() };
+        let (P2, A2) = (p_red.P.to_clarabel(), p_red.A.to_clarabel());
+        let mut s2 = DefaultSolver::new(&P2, &p_red.q, &A2, &p_red.b, &p_red.clarabel_cones(), p_red.settings());
+        s2.solve();
+        if s2.solution.status != sol.status || s2.solution.iterations != sol.iterations {
+            return Some(format!("ends {:?} after {} iterations but the hand-reduced problem (same internal data) ends {:?} after {}",
+                                sol.status, sol.iterations, s2.solution.status, s2.solution.iterations));
+        }
+        if sol.status != SolverStatus::Solved { return None; }
         let s_red: Vec<f64> = kept.iter().map(|&i| sol.s[i]).collect();
         let z_red: Vec<f64> = kept.iter().map(|&i| sol.z[i]).collect();
         let o = observer::observe(&p_red, &sol.x, &s_red, &z_red, &vec![false; kept.len()], f64::INFINITY);
@@ -138,10 +147,6 @@ pub fn replay_one(b: &Value, rng: &mut StdRng) -> Option<String> {
             return Some(format!("kept entries are not a solution of the hand-reduced problem: pres {:e} dres {:e} gap {:e} smin {:e} zmin {:e}",
                                 o.pres, o.dres, o.gap_rel, o.smin, o.zmin));
         }
-        let (P2, A2) = (p_red.P.to_clarabel(), p_red.A.to_clarabel());
-        let mut s2 = DefaultSolver::new(&P2, &p_red.q, &A2, &p_red.b, &p_red.clarabel_cones(), p_red.settings());
-        s2.solve();
-        if s2.solution.status != SolverStatus::Solved { return Some("hand-reduced problem not Solved".into()); }
         let (o1, o2) = (sol.obj_val, s2.solution.obj_val);
         if (o1 - o2).abs() > 1e-6 * (1.0 + o1.abs().max(o2.abs())) {
             return Some(format!("objective {} differs from the hand-reduced problem's {}", o1, o2));
